@@ -117,13 +117,16 @@ pub fn case(sink: &mut Sink, r: &mut Rng, v: &Value, class: &str) {
         sink.oracle(ans == "err", "value with a non-integer number was not rejected", &replay);
         return;
     }
-    let bytes = match Json::canonicalize(v) {
-        Ok(b) => b,
-        Err(_) => {
+    // the bytes of the very call that was reported above (a second call may behave differently when the
+    // encoder keeps state between calls), and a second call, which must give the same bytes
+    let bytes = match ans.strip_prefix("ok ").and_then(crate::proto::unhex) {
+        Some(b) => b,
+        None => {
             sink.oracle(false, "value without non-integers was rejected", &replay);
             return;
         }
     };
+    sink.oracle(Json::canonicalize(v).ok().as_deref() == Some(&bytes[..]), "two canonicalizations of one value give different bytes", &replay);
     // loss-free: valid JSON that parses back to the identical value
     match serde_json::from_slice::<Value>(&bytes) {
         Ok(back) => sink.oracle(back == *v, "canonical text parses back to a different value", &replay),
